@@ -411,6 +411,64 @@ pub fn value_records<T: Probe + MemSize>(ty: &str, seed: u64, reps: u64, out: &m
     }
 }
 
+/// A lock that another thread holds at the moment it is measured: the estimate has to wait for
+/// the holder and then add up the parts like for any other value (the record is an ordinary value
+/// record; the abstract structure is read after the holder let go).
+pub fn held_lock_records(seed: u64, out: &mut Vec<Value>) {
+    fn with_holder<L: Sync, R>(lock: &L, hold: impl Fn(&L, &std::sync::mpsc::Sender<()>) + Send + Sync,
+            measure: impl FnOnce(&L) -> R) -> R {
+        let (tx, rx) = std::sync::mpsc::channel::<()>();
+        std::thread::scope(|sc| {
+            let hold = &hold;
+            sc.spawn(move || hold(lock, &tx));
+            rx.recv().unwrap();
+            measure(lock)
+        })
+    }
+
+    fn rec<L: Probe + MemSize>(ty: &str, r: u64, v: &L, held: isize, sizes: (usize, usize, usize)) -> Value {
+        json!({"kind": "value", "ty": ty, "rep": r, "abs": v.abs(),
+            "value": sizes.0, "heap": enc(sizes.1), "mem": enc(sizes.2), "alloc": held})
+    }
+
+    let pause = std::time::Duration::from_millis(25);
+
+    for r in 0..3u64 {
+        let mut g = G(seed.wrapping_mul(0xA24BAED4963EE407).wrapping_add(r + 3) | 1);
+
+        alloc::track_start();
+        let m: Mutex<Vec<String>> = Probe::gen(&mut g);
+        let held = alloc::track_live();
+        alloc::track_stop();
+        let sizes = with_holder(&m,
+            |l, tx| { let _guard = l.lock().unwrap(); tx.send(()).unwrap(); std::thread::sleep(pause); },
+            |l| (l.value_size(), l.heap_size(), l.mem_size()));
+        out.push(rec("Mutex(Vec(String))@held", r, &m, held, sizes));
+
+        alloc::track_start();
+        let w: RwLock<(String, Box<str>)> = Probe::gen(&mut g);
+        let held = alloc::track_live();
+        alloc::track_stop();
+        let sizes = with_holder(&w,
+            |l, tx| { let _guard = l.write().unwrap(); tx.send(()).unwrap(); std::thread::sleep(pause); },
+            |l| (l.value_size(), l.heap_size(), l.mem_size()));
+        out.push(rec("RwLock(Tuple2(String,BoxStr))@held", r, &w, held, sizes));
+
+        alloc::track_start();
+        let v: Vec<Mutex<String>> = (0..3).map(|_| Probe::gen(&mut g)).collect();
+        let held = alloc::track_live();
+        alloc::track_stop();
+        let sizes = with_holder(&v,
+            |l, tx| {
+                let _guards: Vec<_> = l.iter().map(|m| m.lock().unwrap()).collect();
+                tx.send(()).unwrap();
+                std::thread::sleep(pause);
+            },
+            |l| (l.value_size(), l.heap_size(), l.mem_size()));
+        out.push(rec("Vec(Mutex(String))@held", r, &v, held, sizes));
+    }
+}
+
 /// The four bulk helpers over differently shaped iterators of a Vec<T>.
 pub fn bulk_records<T: Probe + MemSize>(ty: &str, seed: u64, out: &mut Vec<Value>) {
     for r in 0..2u64 {
